@@ -499,3 +499,132 @@ Lemma edges_ok_in n E u v : edges_ok n E = true -> In (u, v) E -> 1 <= u /\ u < 
 Proof.
   unfold edges_ok. rewrite forallb_forall. intros H Hin. specialize (H _ Hin). cbn [fst snd] in H. lia.
 Qed.
+
+(* ---------- binary mappings ---------- *)
+Lemma pow2_succ p : 2 ^ Z.of_nat (S p) = 2 * 2 ^ Z.of_nat p.
+Proof. rewrite Nat2Z.inj_succ, Z.pow_succ_r by lia. reflexivity. Qed.
+Lemma pow2_pos p : 0 < 2 ^ Z.of_nat p.
+Proof. apply Z.pow_pos_nonneg; lia. Qed.
+
+Lemma bits_value_range a nb base : 0 <= bits_value a nb base < 2 ^ Z.of_nat nb.
+Proof.
+  revert base. induction nb as [|p IH]; intros base; cbn [bits_value].
+  - cbn. lia.
+  - rewrite pow2_succ. specialize (IH (base + 1)). pose proof (pow2_pos p). pose proof (b2z_range (a (base + 1))). nia.
+Qed.
+
+Lemma forbid_bits_sem a nb : forall base j, 0 <= base -> 0 <= j < 2 ^ Z.of_nat nb ->
+  clause_sat a (forbid_bits nb base j) = negb (bits_value a nb base =? j).
+Proof.
+  induction nb as [|p IH]; intros base j Hb Hj; cbn [forbid_bits bits_value].
+  - cbn in Hj. assert (j = 0) by lia. subst. reflexivity.
+  - rewrite pow2_succ in Hj. pose proof (pow2_pos p) as Hp. pose proof (bits_value_range a p (base + 1)) as Hr.
+    set (P := 2 ^ Z.of_nat p) in *. destruct (Z.leb_spec P j) as [L|L].
+    + rewrite clause_sat_cons, lit_true_neg, IH by lia. destruct (a (base + 1)); cbn [negb orb b2z].
+      * destruct (Z.eqb_spec (bits_value a p (base + 1)) (j - P)); destruct (Z.eqb_spec (1 * P + bits_value a p (base + 1)) j); try reflexivity; lia.
+      * symmetry. apply negb_true_iff. apply Z.eqb_neq. lia.
+    + rewrite clause_sat_cons, lit_true_pos, IH by lia. destruct (a (base + 1)); cbn [negb orb b2z].
+      * symmetry. apply negb_true_iff. apply Z.eqb_neq. lia.
+      * destruct (Z.eqb_spec (bits_value a p (base + 1)) j); destruct (Z.eqb_spec (0 * P + bits_value a p (base + 1)) j); try reflexivity; lia.
+Qed.
+Lemma forbid_bits_ok nb : forall base j, 0 <= base -> lits_ok (forbid_bits nb base j) = true.
+Proof.
+  induction nb as [|p IH]; intros base j Hb; cbn [forbid_bits]; [reflexivity|].
+  destruct (2 ^ Z.of_nat p <=? j); cbn [lits_ok forallb]; (apply andb_true_iff; split; [apply nonzero_spec; lia|apply IH; lia]).
+Qed.
+
+Lemma bm_forbid_sem a b i j : 0 <= b -> 1 <= i -> 0 <= j < 2 ^ b ->
+  clause_sat a (bm_forbid b i j) = negb (bm_value a b i =? j).
+Proof.
+  intros Hb Hi Hj. unfold bm_forbid, bm_value. apply forbid_bits_sem; [nia|]. now rewrite Z2Nat.id by lia.
+Qed.
+Lemma bm_forbid_ok b i j : 0 <= b -> 1 <= i -> lits_ok (bm_forbid b i j) = true.
+Proof. intros. unfold bm_forbid. apply forbid_bits_ok. nia. Qed.
+Lemma bm_value_range a b i : 0 <= b -> 0 <= bm_value a b i < 2 ^ b.
+Proof. intros Hb. unfold bm_value. pose proof (bits_value_range a (Z.to_nat b) ((i - 1) * b)) as H. now rewrite Z2Nat.id in H by lia. Qed.
+
+Lemma bm_bits_spec m : 1 <= m -> 0 <= bm_bits m /\ m <= 2 ^ bm_bits m.
+Proof.
+  intros Hm. unfold bm_bits. split; [apply Z.log2_up_nonneg|].
+  destruct (Z.eq_dec m 1) as [->|Hne]; [cbn; lia|]. apply Z.log2_up_spec. lia.
+Qed.
+
+(* the relation "element i is mapped to vertex j" (vertices 1..m are written as 0..m-1) *)
+Definition bm_rel (a : Z -> bool) (m : Z) : Z -> Z -> bool := fun i j => bm_value a (bm_bits m) i + 1 =? j.
+
+Lemma bm_forbid2_sem a b i1 j1 i2 j2 : 0 <= b -> 1 <= i1 -> 1 <= i2 -> 0 <= j1 < 2 ^ b -> 0 <= j2 < 2 ^ b ->
+  (clause_sat a (bm_forbid b i1 j1 ++ bm_forbid b i2 j2) = true <->
+   (bm_value a b i1 = j1 -> bm_value a b i2 = j2 -> False)).
+Proof.
+  intros. rewrite clause_sat_app, !bm_forbid_sem by assumption.
+  destruct (Z.eqb_spec (bm_value a b i1) j1), (Z.eqb_spec (bm_value a b i2) j2); cbn; intuition discriminate.
+Qed.
+Lemma bm_forbid2_ok b i1 j1 i2 j2 : 0 <= b -> 1 <= i1 -> 1 <= i2 ->
+  ir_ok (IClause (bm_forbid b i1 j1 ++ bm_forbid b i2 j2)) = true.
+Proof. intros. unfold ir_ok. cbn [ir_lits]. rewrite lits_ok_app, !bm_forbid_ok by assumption. reflexivity. Qed.
+
+Lemma bm_complete_sem a n m : 1 <= m ->
+  (irs_hold a (bm_complete n m) = true <-> forall i, 1 <= i <= n -> bm_value a (bm_bits m) i < m).
+Proof.
+  intros Hm. destruct (bm_bits_spec m Hm) as [Hb Hle]. unfold bm_complete. rewrite irs_hold_flat_map_iff. split.
+  - intros H i Hi. specialize (H i (proj2 (In_rng i n) Hi)). rewrite irs_hold_map_iff in H.
+    destruct (Z.lt_ge_cases (bm_value a (bm_bits m) i) m) as [|Hge]; [assumption|exfalso].
+    pose proof (bm_value_range a (bm_bits m) i Hb) as Hr.
+    specialize (H (bm_value a (bm_bits m) i)). rewrite In_zrange in H. specialize (H ltac:(lia)). cbn [ir_holds] in H.
+    rewrite bm_forbid_sem, Z.eqb_refl in H by lia. discriminate.
+  - intros H i Hi. apply In_rng in Hi. apply irs_hold_map_iff. intros j Hj. apply In_zrange in Hj. cbn [ir_holds].
+    rewrite bm_forbid_sem by lia. apply negb_true_iff. apply Z.eqb_neq. specialize (H i Hi). lia.
+Qed.
+Lemma bm_complete_ok n m : 1 <= m -> irs_ok (bm_complete n m) = true.
+Proof.
+  intros Hm. destruct (bm_bits_spec m Hm) as [Hb _]. apply irs_ok_flat_map. intros i Hi. apply In_rng in Hi.
+  apply irs_ok_map. intros j _. unfold ir_ok. cbn [ir_lits]. apply bm_forbid_ok; lia.
+Qed.
+
+Lemma bm_injective_sem a n m : 1 <= m ->
+  (irs_hold a (bm_injective n m) = true <-> rel_injective (bm_rel a m) n m).
+Proof.
+  intros Hm. destruct (bm_bits_spec m Hm) as [Hb Hle]. unfold bm_injective, rel_injective, bm_rel.
+  rewrite irs_hold_flat_map_iff. split.
+  - intros H j i1 i2 Hj H1 H2 T1 T2. apply Z.eqb_eq in T1, T2.
+    assert (Q : forall x1 x2, 1 <= x1 -> x1 < x2 -> x2 <= n ->
+              bm_value a (bm_bits m) x1 = j - 1 -> bm_value a (bm_bits m) x2 = j - 1 -> False).
+    { intros x1 x2 A1 A2 A3 V1 V2. specialize (H (j - 1)). rewrite In_zrange in H. specialize (H ltac:(lia)).
+      rewrite irs_hold_map_iff in H. specialize (H (x1, x2)). rewrite In_pairs_rng in H. cbn [fst snd] in H.
+      specialize (H ltac:(lia)). cbn [ir_holds] in H.
+      assert (C1 : 1 <= x1) by lia. assert (C2 : 1 <= x2) by lia. assert (C3 : 0 <= j - 1 < 2 ^ bm_bits m) by lia.
+      exact (proj1 (bm_forbid2_sem a _ x1 (j - 1) x2 (j - 1) Hb C1 C2 C3 C3) H V1 V2). }
+    destruct (Z.lt_trichotomy i1 i2) as [L|[L|L]]; [exfalso|assumption|exfalso].
+    + apply (Q i1 i2); lia.
+    + apply (Q i2 i1); lia.
+  - intros H y Hy. apply In_zrange in Hy. apply irs_hold_map_iff. intros [x1 x2] Hp. apply In_pairs_rng in Hp.
+    cbn [fst snd] in *. cbn [ir_holds]. apply bm_forbid2_sem; try lia. intros T1 T2.
+    assert (x1 = x2); [|lia]. apply (H (y + 1) x1 x2); try lia; apply Z.eqb_eq; lia.
+Qed.
+Lemma bm_injective_ok n m : 1 <= m -> irs_ok (bm_injective n m) = true.
+Proof.
+  intros Hm. destruct (bm_bits_spec m Hm) as [Hb _]. apply irs_ok_flat_map. intros y _.
+  apply irs_ok_map. intros [x1 x2] Hp. apply In_pairs_rng in Hp. cbn [fst snd] in *. apply bm_forbid2_ok; lia.
+Qed.
+
+Lemma bm_nondecreasing_sem a n m : 1 <= m ->
+  (irs_hold a (bm_nondecreasing n m) = true <-> rel_nondecreasing (bm_rel a m) n m).
+Proof.
+  intros Hm. destruct (bm_bits_spec m Hm) as [Hb Hle]. unfold bm_nondecreasing, rel_nondecreasing, bm_rel.
+  rewrite irs_hold_flat_map_iff. split.
+  - intros H i1 i2 j1 j2 A1 A2 A3 B1 B2 B3 T1 T2. apply Z.eqb_eq in T1, T2.
+    specialize (H (i1, i2)). rewrite In_pairs_rng in H. cbn [fst snd] in H. specialize (H ltac:(lia)).
+    rewrite irs_hold_map_iff in H. specialize (H (j2 - 1, j1 - 1)). rewrite In_pairs_zrange in H. specialize (H ltac:(lia)).
+    cbn [ir_holds fst snd] in H.
+    assert (C1 : 1 <= i1) by lia. assert (C2 : 1 <= i2) by lia.
+    assert (C3 : 0 <= j1 - 1 < 2 ^ bm_bits m) by lia. assert (C4 : 0 <= j2 - 1 < 2 ^ bm_bits m) by lia.
+    apply (proj1 (bm_forbid2_sem a _ i1 (j1 - 1) i2 (j2 - 1) Hb C1 C2 C3 C4) H); lia.
+  - intros H [u1 u2] Hp. apply In_pairs_rng in Hp. cbn [fst snd] in *. apply irs_hold_map_iff. intros [v1 v2] Hv.
+    apply In_pairs_zrange in Hv. cbn [ir_holds fst snd]. apply bm_forbid2_sem; try lia. intros T1 T2.
+    apply (H u1 u2 (v2 + 1) (v1 + 1)); try lia; apply Z.eqb_eq; lia.
+Qed.
+Lemma bm_nondecreasing_ok n m : 1 <= m -> irs_ok (bm_nondecreasing n m) = true.
+Proof.
+  intros Hm. destruct (bm_bits_spec m Hm) as [Hb _]. apply irs_ok_flat_map. intros [u1 u2] Hp. apply In_pairs_rng in Hp.
+  cbn [fst snd] in *. apply irs_ok_map. intros [v1 v2] _. apply bm_forbid2_ok; lia.
+Qed.
